@@ -3,6 +3,7 @@
 (* the configuration file, whichever of git's spellings of a boolean it uses.  One event per resolution by the real binary:  *)
 (*   [run, gcp, file, feat, shown]   gcp / file / feat \in {"none", "true", "false"}: what the override, the [delta]        *)
 (*   section of the file and an enabled custom feature say (spelling abstracted by the harness); shown: what                 *)
+(*   (a key that the override variable holds twice - git appends - counts with its last occurrence: gcp is that one)         *)
 (*   --show-config reports                                                                                                  *)
 EXTENDS Naturals, Sequences, TLC, Json, IOUtils
 Rec == ndJsonDeserialize(IOEnv.TRACE)
